@@ -48,7 +48,23 @@ func (sig *Signature) Deserialize(b []byte) error {
 	if len(b) == 0 {
 		return fmt.Errorf("signature Deserialized failed.")
 	}
-	sig.value.Unmarshal(b)
+	return sig.unmarshalExact(b)
+}
+
+// unmarshalExact accepts exactly one encoded G1 point: a malformed point or
+// trailing bytes leave the signature nil (and therefore invalid) instead of
+// silently decoding a prefix.
+func (sig *Signature) unmarshalExact(b []byte) error {
+	var v bn_curve.G1
+	rest, err := v.Unmarshal(b)
+	if err == nil && len(rest) != 0 {
+		err = fmt.Errorf("signature Deserialized failed: %d trailing bytes", len(rest))
+	}
+	if err != nil {
+		sig.value = bn_curve.G1{}
+		return err
+	}
+	sig.value = v
 	return nil
 }
 
@@ -62,12 +78,7 @@ func (sig *Signature) SetHexString(s string) error {
 	}
 	buf := s[len(PREFIX):]
 
-	if sig.value.IsNil() {
-		sig.value = bn_curve.G1{}
-	}
-
-	sig.value.Unmarshal(common.Hex2Bytes(buf))
-	return nil
+	return sig.unmarshalExact(common.Hex2Bytes(buf))
 }
 
 func (sig *Signature) IsNil() bool {
